@@ -12,7 +12,7 @@ META = dict(
               "over a bounded hostile path alphabet; the TLC case table is sent through the real "
               "SmartServerRequestHandler over a backing transport built by BzrServerFactory._make_backing_transport; "
               "the places the served transport was asked to touch are judged by the TLA+ laws",
-    level_text="Exhaustive over client paths of up to 3 (quick; 4 thorough) names from {a, ., .., empty, %2E%2E, "
+    level_text="Exhaustive over client paths of up to 3 (quick, for root '/'; 4 thorough) names from {a, ., .., empty, %2E%2E, "
                "%252E%252E, ~, ~user, e-acute, %00} joined by '/' or '%2F' (also '%252F' for <=3 names in thorough), "
                "relative / absolute / root-prefixed, roots {/, /srv/, /a/}, plus control-directory opens by URL "
                "under two jail roots. TLC proves on the model that nothing outside one named input class escapes "
@@ -32,6 +32,7 @@ QUICK_VERBS = ("get", "stat", "put", "mkdir", "iter_files_recursive", "BzrDir.op
 THOROUGH_VERBS = QUICK_VERBS + ("has", "list_dir", "delete", "rmdir", "append", "BzrDirFormat.initialize",
                                 "Branch.get_config_file")
 VFS = {"get", "has", "stat", "put", "mkdir", "list_dir", "iter_files_recursive", "delete", "rmdir", "readv", "append"}
+QUICK_SAMPLE = 1600          # 3-name paths replayed in the quick tier (of 4000; all shorter ones are replayed)
 CLONING = {"iter_files_recursive"}      # verbs the chroot implements by cloning the served transport
 MUTATING = {"put", "mkdir", "delete", "rmdir", "append", "BzrDirFormat.initialize"}
 ROOTFORMS = [("/", "rel"), ("/", "abs"), ("/srv/", "rel"), ("/srv/", "abs"), ("/srv/", "rooted"),
@@ -251,12 +252,7 @@ def _request(w, verb, cp, root, commands=None, jail_root=None):
     h = request.SmartServerRequestHandler(w.backing, commands or request.request_handlers, root_client_path=root,
                                           jail_root=jail_root or w.backing)
     v = verb.encode()
-    if verb in ("put", "append", "mkdir"):
-        args = (v, cp, b"")
-    elif verb == "BzrDirFormat.initialize":
-        args = (v, cp)
-    else:
-        args = (v, cp)
+    args = (v, cp, b"") if verb in ("put", "append", "mkdir") else (v, cp)      # (path, mode) / (path)
     h.args_received(args)
     if verb in ("put", "append") and h.response is None:
         h.accept_body(b"written by C31")
@@ -383,9 +379,9 @@ def _slice(ctx, items):
         w.close()
 
 
-def _consts(names, shallow, seplevel, r="all", f="all", first="all", opens="FALSE"):
+def _consts(names, shallow, seplevel, r="all", f="all", first="all", opens="FALSE", deepall="TRUE"):
     q = '"%s"'
-    return {"MaxNames": names, "ShallowNames": shallow, "MaxSepLevel": seplevel, "RootSel": q % r, "FormSel": q % f,
+    return {"MaxNames": names, "ShallowNames": shallow, "DeepAll": deepall, "MaxSepLevel": seplevel, "RootSel": q % r, "FormSel": q % f,
             "FirstSel": q % first, "WithOpen": opens}
 
 
@@ -419,13 +415,27 @@ def run(ctx):
     os.environ.pop("BRZ_NO_SMART_VFS", None)
     if ctx.quick:
         # one TLC start enumerates the whole quick table, checks the model and the witnesses
-        cases = table.generate(ctx, "SmartJailGen", _consts(3, 2, 1, opens="TRUE"), witnesses=(), workers=6,
+        cases = table.generate(ctx, "SmartJailGen", _consts(3, 2, 1, opens="TRUE", deepall="FALSE"), witnesses=(),
+                               workers=4,
                                env={"VF_WITNESSES": "1"}, label="cases + model check + witnesses")
         if len(cases) < 1000:
             ctx.machinery("case table too small: %d" % len(cases))
+        # the model's own counter-examples to the jail invariant (named deviations; WitnessesReached requires them)
+        for k in cases:
+            sp = k["spec"]
+            if (k["c"]["kind"] == "path" and sp["vfs"]["where"] == "out") or sp.get("where") == "out":
+                if not any(s_.get("kind") == k["c"]["kind"] for s_ in ctx.cov["samples"]):
+                    ctx.sample({"kind": k["c"]["kind"], "model_escapes_on": k["c"], "model_verdict": sp}, limit=2)
+        # TLC has checked the model on every case; replay all short ones and a seeded sample of the 3-name paths
+        long_ = [k for k in cases if k["c"]["kind"] == "path" and len(k["c"]["names"]) >= 3]
+        short = [k for k in cases if not (k["c"]["kind"] == "path" and len(k["c"]["names"]) >= 3)]
+        ctx.rng.shuffle(long_)
+        cases = short + long_[:QUICK_SAMPLE]
+        ctx.cov["sampled_from"] = len(short) + len(long_)
         ctx.rng.shuffle(cases)
-        n = 8
-        items = WITNESSES + [cases[i::n] for i in range(n)]
+        n = 4
+        # + one small slice with doubly encoded separators ('%252F'), generated in a worker
+        items = [_consts(2, 2, 2, "/", "rel")] + [cases[i::n] for i in range(n)]
         core.fork_map(ctx, _slice, items, chunks_per_proc=1)
     else:
         tlc.check(ctx, "SmartJailGen", cfg_text=table.cfg(SMALL, ("LawsHoldOnSpec",)), env={"VF_WITNESSES": "1"},
@@ -435,13 +445,16 @@ def run(ctx):
     ctx.rule("client path = names from {a, ., .., empty, %2E%2E, %252E%252E, ~, ~user, e-acute, %00} joined by "
              "separators '/' | '%2F' (| '%252F'), as relative / absolute / root-prefixed path, for "
              "root_client_path in {/, /srv/, /a/}; every combination enumerated by TLC: " +
-             ("<= 3 names for the (root, form) pairs that get past the root match, <= 2 names otherwise"
+             ("<= 3 names for root '/' with relative paths (all of them model-checked, every path of <= 2 "
+              "names and a seeded sample of %d of the 3-name paths replayed), <= 2 names for the other (root, "
+              "form) pairs, and " % QUICK_SAMPLE +
+              "<= 2 names with '%252F' as well for ('/', relative)"
               if ctx.quick else "<= 4 names with '/' | '%2F' for the (root, form) pairs that get past the root "
                                 "match, <= 3 names with '/' | '%2F' | '%252F' for all pairs") +
              "; each sent with verbs " + ", ".join(verbs) +
              "; plus control-directory opens by URL (3 URL schemes x 2 jail roots x <= 3 names). Non-trivial = path "
              "contains anything besides the plain name 'a' and '/'.")
-    ctx.cov["exhaustive"] = True
+    ctx.cov["exhaustive"] = not ctx.quick
     ctx.assume("the place an operation touches is the path string handed to the served (local) transport, "
                "percent-decoded once and normalised lexically (for a cloned transport: its base); successful reads "
                "are cross-checked against the file content")
